@@ -71,8 +71,16 @@ One user; `mailboxes` = number of mailboxes, and one mailbox under observation w
 messages and `uidNext` (= `GetMailboxMessageCountAndUID`: COUNT(*) and `seq + 1`).
 
 * `create parents` — `State.Create` / connector `CreateMailbox`: inside the write transaction,
-  `CheckMailBoxCount(GetMailboxCount())` **once**, then the named mailbox and all `parents`
-  missing superiors are created.
+  `CheckMailBoxCount(mailboxCount)` with `mailboxCount = GetMailboxCount()` (room for one more), then —
+  once the list `mboxesToCreate` of the `parents` missing superiors and the named mailbox is complete and
+  before the first `actionCreateMailbox` (which is what tells the connector) —
+  `CheckMailBoxCount(mailboxCount + len(mboxesToCreate) - 1)` (room for all of them: the check refuses
+  when its argument is `≥` the maximum, so the argument is the count *before* the last one is added);
+  then the named mailbox and all `parents` missing superiors are created.  A refusal of either check is an
+  error return of the transaction body before anything was created.
+* `renameParents parents` — `State.Rename`: the `parents` missing superiors of the NEW name are created
+  (`CreateMailboxIfNotExists` in a loop; `renameInbox` creates one mailbox more, the new home of INBOX's
+  messages: count it in `parents`) with **no** limit check at all.
 * `addTx n` — `AddMessagesToMailbox` / `MoveMessagesFromMailbox` (COPY, MOVE, connector batches):
   count and UID are read and checked inside the transaction that inserts the `n` messages.
 * `replaceTx k n` — COPY / MOVE of `n` messages of which `k` already have a copy in the destination
@@ -89,6 +97,7 @@ messages and `uidNext` (= `GetMailboxMessageCountAndUID`: COUNT(*) and `seq + 1`
 
 inductive Ev where
   | create (parents : Nat)
+  | renameParents (parents : Nat)
   | addTx (n : Nat)
   | replaceTx (k : Nat) (n : Nat)
   | check (sid : Nat) (n : Nat)
@@ -109,7 +118,11 @@ def msgChecks (l : IMAP) (w : World) (n : Nat) : Bool :=
 
 def step (l : IMAP) (w : World) : Ev → World
   | .create parents =>
-    if (checkMailBoxCount l w.mailboxes).isNone then { w with mailboxes := w.mailboxes + parents + 1 } else w
+    if (checkMailBoxCount l w.mailboxes).isNone
+        && (checkMailBoxCount l ((w.mailboxes : Int) + ((parents : Int) + 1) - 1)).isNone then
+      { w with mailboxes := w.mailboxes + parents + 1 }
+    else w
+  | .renameParents parents => { w with mailboxes := w.mailboxes + parents }
   | .addTx n =>
     if msgChecks l w n then { w with count := w.count + n, uidNext := w.uidNext + n } else w
   | .replaceTx k n =>
@@ -138,11 +151,13 @@ def Within (l : IMAP) (w : World) : Prop :=
 
 instance (l : IMAP) (w : World) : Decidable (Within l w) := by unfold Within; infer_instance
 
-/-- **Named hypothesis `NoImplicitParents`**: no CREATE in the history has to create missing superiors. -/
-def NoImplicitParents : List Ev → Prop
+/-- **Named hypothesis `NoRenameParents`**: no RENAME in the history has to create missing superiors
+    of the new name (nor is it a rename of INBOX).  CREATE needs no such hypothesis: it checks the limit
+    for everything it creates. -/
+def NoRenameParents : List Ev → Prop
   | [] => True
-  | .create p :: rest => p = 0 ∧ NoImplicitParents rest
-  | _ :: rest => NoImplicitParents rest
+  | .renameParents p :: rest => p = 0 ∧ NoRenameParents rest
+  | _ :: rest => NoRenameParents rest
 
 /-- schedule discipline behind `ChecksInsideTx`; `pending` = the session whose check has just run -/
 def CheckThenInsert : (pending : Option Nat) → List Ev → Prop
